@@ -178,12 +178,27 @@ def stallHandle (inp impl : Json) : Verdict :=
       else if err != "timeout" || iRes != spec then s!"clientstall: expected {spec}, got {iRes}"
       else s!"clientstall: the time-out error came {el} ms after the beginning of the read; the period of the site is {period} ms" }
 
+/-! ### op "session": a long session through one stream decoder -/
+
+def sessionHandle (inp impl : Json) : Verdict :=
+  let sent := ((arr (field inp "plan")).map fun s => nat (field s "n")).foldl (· + ·) 0
+  let got := nat (field impl "got")
+  let last := str (field impl "last")
+  -- `roundtrip_decoder`: every message comes back, then a clean end of input — whatever the volume
+  let holds := got == sent && nat (field impl "sent") == sent && int (field impl "firstBad") == -1 && last == "eof"
+  { agree := holds, holds := holds, nontrivial := true,
+    cls := "session:" ++ (if bool (field inp "json") then "json" else "binary"),
+    model := Json.mkObj [("got", toJson sent), ("last", "eof")],
+    why := if holds then "" else
+      s!"session: {sent} messages ({nat (field impl "bytes")} bytes, message boundaries after each segment at {(arr (field impl "marks")).map (fun m => nat m)}) were written to one decoder; {got} came back, then '{last}' (first different message: {int (field impl "firstBad")})" }
+
 def handle : Handler := fun op inp impl =>
   if !(isNull (field impl "panic")) then
     { agree := false, holds := false, why := "panic: " ++ str (field impl "panic") } else
   match op with
   | "site" => siteHandle inp impl
   | "pipe" => pipeHandle inp impl
+  | "session" => sessionHandle inp impl
   | "clientstall" => stallHandle inp impl
   | "read" =>
     let data := unhex (str (field inp "bytes"))
@@ -217,15 +232,22 @@ def handle : Handler := fun op inp impl =>
         s!"framing: expected {spec} consumed {sConsumed}, got {iRes} consumed {iConsumed} maxBuf {iMaxBuf} timely {timely}" }
   | "enc" =>
     let bodies := (strList (field impl "bodies")).map unhex
-    let want := hex (bodies.flatMap encode)
+    -- the history of writes: `none` for a write that returned an error (it must have written nothing)
+    let failed := natList (field impl "failed")
+    let bad := natList (field inp "bad")
+    let nIn := Nat.max (arr (field inp "hdrs")).length (arr (field inp "bodies")).length
+    let hist : List (Option Bytes) := ((List.range nIn).foldl (fun (acc : List (Option Bytes) × List Bytes) i =>
+      if failed.contains i then (acc.1 ++ [none], acc.2)
+      else (acc.1 ++ [acc.2.head?], acc.2.tail)) ([], bodies)).1
+    let want := hex (writeHistory hist)
     let got := str (field impl "stream")
     -- round trip: what the real reader of the same variant makes of the written stream
     let readBack := bool (field inp "readBack")
     let iBack := (arr (field impl "back")).map showImpl
     let wantBack := bodies.map (fun b => "msg:" ++ hex b) ++ ["eof"]
     let backOK := !readBack || iBack == wantBack
-    let holds := got == want && backOK
-    { agree := holds, holds := holds, nontrivial := !bodies.isEmpty,
+    let holds := got == want && backOK && bodies.length + failed.length == nIn
+    { agree := holds && failed == bad, holds := holds, nontrivial := !bodies.isEmpty,
       cls := "enc:" ++ str (field inp "via") ++ (if readBack then ":roundtrip" else ""),
       model := if got == want then Json.null else Json.mkObj [("stream", want)],
       why := if got != want then
@@ -244,7 +266,10 @@ def handle : Handler := fun op inp impl =>
     { agree := holds, holds := holds, nontrivial := nat (field inp "chunk") > 0, cls := if bool (field inp "json") then "peer-json" else "peer-binary",
       why := if holds then "" else s!"reference client answered {got.length} of {want.length} requests written to its stdin (chunk {nat (field inp "chunk")}): " ++ str (field impl "runErr") ++ str (field impl "err") }
   | "json" =>
-    let hdrs := (arr (field inp "hdrs")).map (fun h => let l := strList h; if l.isEmpty then [""] else l)
+    -- messages that cannot be encoded (`bad`) must leave nothing in the stream: only the others count
+    let badJ := natList (field inp "bad")
+    let allHdrs := (arr (field inp "hdrs")).map (fun h => let l := strList h; if l.isEmpty then [""] else l)
+    let hdrs := ((List.range allHdrs.length).filter (fun i => !badJ.contains i)).map (fun i => allHdrs.getD i [""])
     let e := ending (str (field inp "ending"))
     let count := nat (field inp "count")
     let total := nat (field impl "len")
